@@ -12,7 +12,7 @@ THOROUGH_CAPS = [1, 2, 3, 5, 8, 16, 64]
 
 
 def all_builds():
-    b = ["lock_stress.plain", "lock_stress.tsan", "lock_stress.asan",
+    b = ["lock_stress.plain", "lock_stress.tsan", "lock_stress.asan", "lock_seq.plain",
          "zipf_mon.plain", "zipf_mon.asanfatal", "zipf_mon.tsan"]
     b += ["thr_mon.plain.n%d" % n for n in QUICK_CAPS]
     b += ["thr_mon.asan.n%d" % n for n in (3, 8)]
@@ -44,6 +44,21 @@ def lock_jobs(rng, classes, profiles, runs_per_class, flavor="plain", ops_total=
     return jobs
 
 
+def seq_jobs(rng, classes, runs_per_class, programs=300, flavor="plain", hang_s=15, timeout=900):
+    jobs = []
+    for cls in classes:
+        for i in range(runs_per_class):
+            args = {"cls": cls, "seed": rng.randrange(1, 2**31), "programs": programs, "chaos": i % 3,
+                    "steps": rng.choice([8, 14, 14, 24]), "hang_s": hang_s}
+            jobs.append(Job("lock_seq.%s" % flavor, args, timeout=timeout, tag="seq/%s" % cls, cost=3))
+    return jobs
+
+
+SEQ_RULE = ("; in addition the controlled engine lock_seq runs random programs (8-48 operations, 2-4 virtual threads, "
+            "1-2 locks) over the complete guard API one operation at a time and compares every completed operation "
+            "with an executable model (ownership of every guard slot, lock-mode holders with acquisition tickets, "
+            "version timeline); its distinct cases are (operation kind, guard/lock state before it) signatures")
+
 LOCK_RULE = ("executions are short randomized multi-thread runs of the real lock code (profile, thread count, "
              "lock count, hold times, seed and chaos plan drawn from VERIF_SEED); evaluations = completed client "
              "operations; a case is distinct and non-trivial when it is a distinct signature (lock class, API, "
@@ -72,20 +87,28 @@ def spec_C01(prop, tier, seed, t0):
     profs = ["mixed", "readers", "writers", "convert", "ssix", "random", "optimistic", "prepare", "sx"]
     if tier == "quick":
         jobs = lock_jobs(rng, CLASSES, profs, 12)
+        jobs += seq_jobs(rng, CLASSES, 3)
     else:
         jobs = lock_jobs(rng, CLASSES, profs, 300, ops_total=40000, mcs_ops_total=10000)
+        jobs += seq_jobs(rng, CLASSES, 60, programs=600)
         jobs += lock_jobs(rng, CLASSES, profs, 60, variant="spinalt")
         jobs += lock_jobs(rng, CLASSES, profs, 40, flavor="tsan", ops_total=8000, mcs_ops_total=3000)
         jobs += lock_jobs(rng, CLASSES, profs, 40, flavor="asan", ops_total=12000, mcs_ops_total=4000)
-    return _mk(prop, tier, seed, t0, jobs, {"grants_sharing_with_other_holders": 1000, "distinct_nontrivial": 40})
+    return _mk(prop, tier, seed, t0, jobs, {"grants_sharing_with_other_holders": 1000, "distinct_nontrivial": 40},
+               rule=LOCK_RULE + SEQ_RULE)
 
 
 def spec_C07(prop, tier, seed, t0):
     rng = random.Random(seed * 7919 + 7)
     profs = ["mixed", "convert", "random", "optimistic", "prepare"]
-    n = 10 if tier == "quick" else 300
-    jobs = lock_jobs(rng, CLASSES, profs, n)
-    return _mk(prop, tier, seed, t0, jobs, {"guard_ownership_checks": 100000})
+    n = 8 if tier == "quick" else 200
+    jobs = seq_jobs(rng, CLASSES, 8 if tier == "quick" else 200, programs=300 if tier == "quick" else 800)
+    jobs += lock_jobs(rng, CLASSES, profs, n)
+    if tier != "quick":
+        jobs += seq_jobs(rng, CLASSES, 20, programs=300, flavor="asan")
+    return _mk(prop, tier, seed, t0, jobs, {"guard_ownership_checks": 100000, "programs": 5000, "op_MoveCtor": 3000,
+                                           "op_MoveAssign": 2000, "op_Upgrade": 1000, "op_Downgrade": 1000},
+               rule=LOCK_RULE + SEQ_RULE)
 
 
 def spec_C08(prop, tier, seed, t0):
@@ -117,12 +140,15 @@ def spec_C02(prop, tier, seed, t0):
         jobs = lock_jobs(rng, CLASSES, profs, 10, chaos_choices=(2, 3, 3))
         jobs += lock_jobs(rng, ["mcs"], ["xonly", "mixed", "convert", "sx"], 8, threads_choices=(16, 24),
                           mcs_ops_total=5000, chaos_choices=(2, 3))
+        jobs += seq_jobs(rng, CLASSES, 3)
     else:
-        jobs = lock_jobs(rng, CLASSES, profs, 400, chaos_choices=(1, 2, 3, 3), ops_total=40000, mcs_ops_total=10000)
+        jobs = seq_jobs(rng, CLASSES, 60, programs=600)
+        jobs += lock_jobs(rng, CLASSES, profs, 400, chaos_choices=(1, 2, 3, 3), ops_total=40000, mcs_ops_total=10000)
         jobs += lock_jobs(rng, ["mcs"], ["xonly", "mixed", "convert", "sx"], 200, threads_choices=(16, 24),
                           mcs_ops_total=8000, chaos_choices=(2, 3))
         jobs += lock_jobs(rng, CLASSES, profs, 100, variant="spinalt", chaos_choices=(2, 3))
-    return _mk(prop, tier, seed, t0, jobs, {"ops_total": 100000, "distinct_nontrivial": 40})
+    return _mk(prop, tier, seed, t0, jobs, {"ops_total": 100000, "distinct_nontrivial": 40, "programs": 1000},
+               rule=LOCK_RULE + SEQ_RULE)
 
 
 def spec_C03(prop, tier, seed, t0):
@@ -131,11 +157,13 @@ def spec_C03(prop, tier, seed, t0):
     n = 30 if tier == "quick" else 1500
     jobs = lock_jobs(rng, ["opt"], profs, n, hold_choices=(0, 500, 2000, 20000), chaos_choices=(2, 3, 3),
                      ops_total=30000)
+    jobs += seq_jobs(rng, ["opt"], 6 if tier == "quick" else 120, programs=300 if tier == "quick" else 600)
     if tier != "quick":
         jobs += lock_jobs(rng, ["opt"], profs, 200, variant="spinalt", chaos_choices=(2, 3))
         jobs += lock_jobs(rng, ["opt"], profs, 100, flavor="asan", ops_total=10000)
     return _mk(prop, tier, seed, t0, jobs,
-               {"opt_checks_ok": 5000, "opt_checks_failed": 500, "opt_windows_overlapping_an_exclusive_section": 200})
+               {"opt_checks_ok": 5000, "opt_checks_failed": 500, "opt_windows_overlapping_an_exclusive_section": 200,
+                "op_VerifyVersion": 500, "op_TryLock": 300}, rule=LOCK_RULE + SEQ_RULE)
 
 
 def spec_C09(prop, tier, seed, t0):
@@ -144,7 +172,9 @@ def spec_C09(prop, tier, seed, t0):
     n = 16 if tier == "quick" else 600
     jobs = lock_jobs(rng, ["opt"], profs, n)
     jobs += lock_jobs(rng, ["opt"], profs, n, extra={"arbver": 1})
-    return _mk(prop, tier, seed, t0, jobs, {"version_checks_under_shared_hold": 2000, "exclusive_sections": 20000})
+    jobs += seq_jobs(rng, ["opt"], 10 if tier == "quick" else 200, programs=300 if tier == "quick" else 800)
+    return _mk(prop, tier, seed, t0, jobs, {"version_checks_under_shared_hold": 2000, "exclusive_sections": 20000,
+                                           "op_SetVersion": 200, "programs": 2000}, rule=LOCK_RULE + SEQ_RULE)
 
 
 def spec_C10(prop, tier, seed, t0):
@@ -152,9 +182,11 @@ def spec_C10(prop, tier, seed, t0):
     profs = ["convert", "mixed", "random", "ssix"]
     n = 12 if tier == "quick" else 500
     jobs = lock_jobs(rng, CLASSES, profs, n, chaos_choices=(2, 3, 3))
+    jobs += seq_jobs(rng, CLASSES, 3 if tier == "quick" else 60, programs=300 if tier == "quick" else 600)
     if tier != "quick":
         jobs += lock_jobs(rng, CLASSES, profs, 100, variant="spinalt", chaos_choices=(2, 3))
-    return _mk(prop, tier, seed, t0, jobs, {"upgrades": 5000, "downgrades": 5000})
+    return _mk(prop, tier, seed, t0, jobs, {"upgrades": 5000, "downgrades": 5000, "op_Upgrade": 500, "op_Downgrade": 500},
+               rule=LOCK_RULE + SEQ_RULE)
 
 
 def spec_C11(prop, tier, seed, t0):
@@ -163,8 +195,10 @@ def spec_C11(prop, tier, seed, t0):
     n = 32 if tier == "quick" else 1500
     jobs = lock_jobs(rng, ["mcs"], profs, n, threads_choices=(4, 6, 8, 12, 16), hold_choices=(2000, 20000, 50000),
                      mcs_ops_total=5000, chaos_choices=(1, 2, 3))
+    jobs += seq_jobs(rng, ["mcs"], 8 if tier == "quick" else 200, programs=300 if tier == "quick" else 600)
     return _mk(prop, tier, seed, t0, jobs,
-               {"mcs_requests_with_arrival_stamp": 20000, "mcs_grants_with_later_conflicting_waiters": 2000})
+               {"mcs_requests_with_arrival_stamp": 20000, "mcs_grants_with_later_conflicting_waiters": 2000,
+                "op_Lock(completed-later)": 1000}, rule=LOCK_RULE + SEQ_RULE)
 
 
 def spec_C12(prop, tier, seed, t0):
@@ -184,9 +218,11 @@ def spec_C13(prop, tier, seed, t0):
     n = 30 if tier == "quick" else 1500
     jobs = lock_jobs(rng, ["opt"], profs, n, hold_choices=(2000, 20000, 50000), chaos_choices=(2, 3, 3),
                      threads_choices=(3, 4, 6, 8, 12), ops_total=20000)
+    jobs += seq_jobs(rng, ["opt"], 6 if tier == "quick" else 120, programs=300 if tier == "quick" else 600)
     if tier != "quick":
         jobs += lock_jobs(rng, ["opt"], profs, 300, variant="spinalt", hold_choices=(2000, 20000))
-    return _mk(prop, tier, seed, t0, jobs, {"prepare_owning": 500, "prepare_optimistic": 5000})
+    return _mk(prop, tier, seed, t0, jobs, {"prepare_owning": 500, "prepare_optimistic": 5000, "op_PrepareRead": 200},
+               rule=LOCK_RULE + SEQ_RULE)
 
 
 ZIPF_ASSUME = [
